@@ -276,6 +276,9 @@ func secondView(p *Prog, pd *propDef, tier string, c *Ctx, panicMsg string, know
 				fmt.Printf("view2 %s %s: %s: %s — %s\n", o.Status, o.Pos, o.Rule, o.Construct, o.Detail)
 			}
 		}
+		for _, n := range c2.Notes {
+			fmt.Printf("view2 note: %s\n", n)
+		}
 	}
 	if panicMsg != "" {
 		// the source view lost an anchor; the baseline view is complete: it decides
